@@ -148,8 +148,36 @@ def acc_inc(s, names):
 
 
 # ------------------------------------------------------------------ running one schema through both sides
+def rule_lines(lines, spec):
+    """` WR|UR <i> <hex>` lines -> normalised, printable rule text; ` TWR` lines are folded into the TYPE line (` wr=a|b`)"""
+    out = []
+    for l in lines:
+        m = re.match(r" (WR|UR|TWR|DI) (\S+) ([0-9a-f]*|NULL)$", l)
+        if not m:
+            out.append(l); continue
+        try:
+            t = bytes.fromhex(m.group(3)).decode("latin-1") if m.group(3) != "NULL" else "<null rule>"
+        except ValueError:
+            t = "<bad hex>"
+        q = G.rule_quote(G.rule_norm(t, spec))
+        if m.group(1) == "TWR":
+            if out and out[-1].startswith("TYPE "):
+                out[-1] += (" wr=" if " wr=" not in out[-1] else "|") + q
+            else:
+                out.append(l)
+        else:
+            out.append(f" {m.group(1)} {m.group(2)} {q}")
+    return out
+
+
 def canon_real(lines):
     """implementation dump -> (lines for the oracle, lines for the model comparison, flags, acc lines)"""
+    o1, m1, a1 = canon_real0(rule_lines(lines, True))
+    _, m2, _ = canon_real0(rule_lines(lines, False))
+    return o1, m2, a1
+
+
+def canon_real0(lines):
     orc, mdl, acc = [], [], []
     for l in lines:
         if l.startswith("ENTITY "):
@@ -264,7 +292,7 @@ def run_one(b, model_exe, s, wd, text=None, script_seed=0, script_ops=None):
         R.status, R.detail = "model-fail", f"rc={m.returncode} {m.stdout[-300:]} {m.stderr[-300:]}"
         return R
     R.names = [l.split(" ") for l in ml if l.startswith(("CLASS ", "ACCN ", "ENUMC ", "TYPEC "))]
-    R.model = [l for l in ml if l and not l.startswith(("CLASS ", "ACCN ", "ENUMC ", "TYPEC ", "ORDER ", "END"))]
+    R.model = rule_lines([l for l in ml if l and not l.startswith(("CLASS ", "ACCN ", "ENUMC ", "TYPEC ", "ORDER ", "END"))], False)
     gen = os.path.join(wd, "g")
     os.makedirs(gen)
     try:
@@ -359,7 +387,12 @@ def oracle_raw(R):
         return [("generator-fails", "exp2cxx fails on a schema check-express accepts: " + R.detail[-300:], None)]
     if R.status == "compile-fail":
         first = re.sub(r"^.*?error: ", "", R.detail.split("\n")[0])
-        if R.schema.name.lower() in CXX_KEYWORDS:
+        texts = [w["expr"] for x in s.types + s.entities for w in x.get("wheres", [])] + \
+                [a.get("init", "") for e in s.entities for a in e["attrs"] if a["kind"] == "D"]
+        if any('"' in t for t in texts):
+            # decided from the input: EXPRESS text with a double quote is copied into a C++ string literal
+            sig = "double-quote-in-express-text"
+        elif R.schema.name.lower() in CXX_KEYWORDS:
             sig = "expected_(_before_::_token"              # finding F2: schema name used verbatim as a namespace
         elif re.search(r"Sdai\w+_var\w*\W+does not name a type|no declaration matches .const Sdai\w+_var\w*\W", R.detail):
             sig = "enum-class-used-before-its-typedef"        # names vary with the schema: classify
@@ -388,7 +421,7 @@ def oracle_raw(R):
         for l in lines:
             if l.startswith("ENTITY "):
                 cur = l.split(" ")[1]; d[cur] = [l]
-            elif l.startswith((" ATTR", " INV")) and cur:
+            elif l.startswith((" ATTR", " INV", " UR ", " WR ", " DI ")) and cur:
                 d[cur].append(l)
             else:
                 cur = None
@@ -402,6 +435,8 @@ def oracle_raw(R):
             cls = "entity"
             if diff[1] and diff[1].startswith(" ATTR") and diff[0] and "type=NULL" in diff[0]:
                 cls = "attr-type-null"
+            if [x for x in g if not x.startswith((" UR ", " WR ", " DI "))] == [x for x in bl if not x.startswith((" UR ", " WR ", " DI "))]:
+                cls = "entity-rules"
             probs.append((f"mirror:{cls}", f"entity {n}: dictionary has {diff[0]!r}, schema requires {diff[1]!r}", ("entity", decl)))
     for n in gb:
         if n not in sb:
@@ -503,7 +538,12 @@ def correspondence(R):
 
 
 def scramble_case(text, rng):
-    return "".join((c.upper() if rng.random() < 0.5 else c.lower()) if c.isalpha() else c for c in text)
+    out, lit = [], False
+    for c in text:
+        if c == "'":
+            lit = not lit
+        out.append((c.upper() if rng.random() < 0.5 else c.lower()) if c.isalpha() and not lit else c)
+    return "".join(out)
 
 
 # ------------------------------------------------------------------ corpus (hand-written shapes, run first)
@@ -512,14 +552,7 @@ def corpus_schemas():
     if os.path.isdir(CORPUS):
         for f in sorted(os.listdir(CORPUS)):
             if f.endswith(".json"):
-                d = json.load(open(os.path.join(CORPUS, f)))
-                s = G.Schema(d["name"])
-                s.types = [dict(name=t["name"], body=tup(t["body"])) for t in d.get("types", [])]
-                s.entities = [dict(name=e["name"], abstract=e.get("abstract", False), supers=e.get("supers", []),
-                                   attrs=[dict(name=a["name"], redecl=a.get("redecl"), kind=a.get("kind", "E"), opt=a.get("opt", False),
-                                               type=tup(a["type"]), inv=a.get("inv"), init=a.get("init", "1")) for a in e.get("attrs", [])])
-                              for e in d.get("entities", [])]
-                out.append((f[:-5], s))
+                out.append((f[:-5], schema_from_json(json.load(open(os.path.join(CORPUS, f))))))
     return out
 
 
@@ -597,9 +630,31 @@ def untup(x):
 
 
 def schema_json(s):
-    return dict(name=s.name, types=[dict(name=t["name"], body=untup(t["body"])) for t in s.types],
+    return dict(name=s.name, types=[dict(name=t["name"], body=untup(t["body"]), **({"wheres": t["wheres"]} if t.get("wheres") else {}))
+                                    for t in s.types],
                 entities=[dict(name=e["name"], abstract=e["abstract"], supers=e["supers"],
-                               attrs=[{k: untup(v) for k, v in a.items()} for a in e["attrs"]]) for e in s.entities])
+                               attrs=[{k: untup(v) for k, v in a.items()} for a in e["attrs"]],
+                               **{k: e[k] for k in ("uniques", "wheres") if e.get(k)}) for e in s.entities])
+
+
+def schema_from_json(d):
+    """corpus files and replay files (rules: wheres=[{label, expr, uses}], uniques=[{label, attrs, uses}])"""
+    def rules(l, key):
+        return [dict(label=w.get("label"), uses=w.get("uses", []), **{key: w[key]}) for w in l]
+    s = G.Schema(d["name"])
+    s.types = [dict(name=t["name"], body=tup(t["body"]), **({"wheres": rules(t["wheres"], "expr")} if t.get("wheres") else {}))
+               for t in d.get("types", [])]
+    s.entities = []
+    for e in d.get("entities", []):
+        x = dict(name=e["name"], abstract=e.get("abstract", False), supers=e.get("supers", []),
+                 attrs=[dict(name=a["name"], redecl=a.get("redecl"), kind=a.get("kind", "E"), opt=a.get("opt", False),
+                             type=tup(a["type"]), inv=a.get("inv"), init=a.get("init", "1")) for a in e.get("attrs", [])])
+        if e.get("uniques"):
+            x["uniques"] = rules(e["uniques"], "attrs")
+        if e.get("wheres"):
+            x["wheres"] = rules(e["wheres"], "expr")
+        s.entities.append(x)
+    return s
 
 
 # ------------------------------------------------------------------ evaluation
@@ -653,10 +708,26 @@ def without(s, kind, name):
     import copy
     t = G.Schema(s.name)
     t.types, t.entities = copy.deepcopy(s.types), copy.deepcopy(s.entities)
+    if kind == "rules":          # one declaration without its WHERE / UNIQUE rules
+        for x in t.types + t.entities:
+            if x["name"] == name:
+                x.pop("wheres", None); x.pop("uniques", None)
+        return t
+    if kind == "rule":           # without one rule
+        n, k, i = name
+        for x in t.types + t.entities:
+            if x["name"] == n and i < len(x.get(k, [])):
+                x[k] = x[k][:i] + x[k][i + 1:]
+        return t
     if kind == "attr":
         en, an = name
         e = t.Ent(en)
         e["attrs"] = [a for a in e["attrs"] if a["name"] != an]
+        for x in t.entities:     # rules that mention the attribute go too
+            for k in ("uniques", "wheres"):
+                if x.get(k):
+                    x[k] = [w for w in x[k] if an not in w.get("uses", [])]
+        prune_rules(t)
         # redeclarations / inverse partners of the removed attribute go too
         for x in t.entities:
             x["attrs"] = [a for a in x["attrs"] if not (a["name"] == an and a["redecl"]) and not (a.get("inv") == an and a["kind"] == "I")]
@@ -698,7 +769,22 @@ def without(s, kind, name):
                 e["attrs"] = keep; changed = True
     t.types = [x for x in t.types if x["name"] not in dead_t]
     t.entities = [e for e in t.entities if e["name"] not in dead_e]
+    return prune_rules(t)
+
+
+def prune_rules(t):
+    """rules that mention an attribute which is no longer there go"""
+    for e in t.entities:
+        have = {a["name"] for m in G.Gen._anc(t, [e["name"]]) for a in t.Ent(m)["attrs"]}
+        for k in ("uniques", "wheres"):
+            if e.get(k):
+                e[k] = [w for w in e[k] if all(u in have for u in w.get("uses", []))]
     return t
+
+
+def size_of(t):
+    return (len(t.entities), len(t.types), sum(len(e["attrs"]) for e in t.entities),
+            sum(len(x.get("wheres", [])) + len(x.get("uniques", [])) for x in t.types + t.entities))
 
 
 def shrink_schema(ctx, b, model_exe, s, key, rounds=12):
@@ -707,12 +793,15 @@ def shrink_schema(ctx, b, model_exe, s, key, rounds=12):
     for rnd in range(rounds):
         cands = [("entity", e["name"]) for e in best.entities] + [("type", t["name"]) for t in best.types]
         cands += [("attr", (e["name"], a["name"])) for e in best.entities for a in e["attrs"] if not a["redecl"]]
+        cands += [("rules", x["name"]) for x in best.types + best.entities if x.get("wheres") or x.get("uniques")]
+        n_rules = size_of(best)[3]
+        if n_rules <= 12:
+            cands += [("rule", (x["name"], k, i)) for x in best.types + best.entities for k in ("wheres", "uniques")
+                      for i in range(len(x.get(k, [])))]
         trial = []
         for c in cands:
             t = without(best, *c)
-            if t.entities and (len(t.entities), len(t.types), sum(len(e["attrs"]) for e in t.entities)) < \
-                    (len(best.entities), len(best.types), sum(len(e["attrs"]) for e in best.entities)) or \
-                    (t.entities and len(t.types) < len(best.types)):
+            if t.entities and size_of(t) < size_of(best) or (t.entities and len(t.types) < len(best.types)):
                 trial.append(t)
         if not trial:
             break
@@ -723,20 +812,27 @@ def shrink_schema(ctx, b, model_exe, s, key, rounds=12):
             shutil.rmtree(os.path.join(ctx.work, f"shr-{rnd}-{i}"), ignore_errors=True)
         if not ok:
             break
-        best, bestR = min(ok, key=lambda p: (len(p[0].entities) + len(p[0].types), sum(len(e["attrs"]) for e in p[0].entities)))
+        best, bestR = min(ok, key=lambda p: (len(p[0].entities) + len(p[0].types), sum(len(e["attrs"]) for e in p[0].entities), size_of(p[0])[3]))
     return best, bestR
 
 
 def run_batch(ctx, b, model_exe, items, label):
     """items: list of (name, schema, text or None).  Parallel build+run; returns number of problems."""
-    t0 = time.time()
-    res = {}
     with cf.ThreadPoolExecutor(max_workers=min(14, (os.cpu_count() or 8))) as ex:
-        seeds = [ctx.rng.randrange(1 << 30) for _ in items]
-        futs = {ex.submit(run_one, b, model_exe, s, os.path.join(ctx.work, f"{label}-{i}"), text, seeds[i]): (i, nm)
-                for i, (nm, s, text) in enumerate(items)}
-        for f in cf.as_completed(futs):
-            res[futs[f][0]] = f.result()
+        return collect_batch(ctx, b, model_exe, submit_batch(ctx, ex, b, model_exe, items, label))
+
+
+def submit_batch(ctx, ex, b, model_exe, items, label):
+    """start build+run of every item on the executor (several batches may share one: no waiting for each batch's slowest item)"""
+    seeds = [ctx.rng.randrange(1 << 30) for _ in items]
+    futs = [ex.submit(run_one, b, model_exe, s, os.path.join(ctx.work, f"{label}-{i}"), text, seeds[i])
+            for i, (nm, s, text) in enumerate(items)]
+    return items, label, futs, time.time()
+
+
+def collect_batch(ctx, b, model_exe, pending):
+    items, label, futs, t0 = pending
+    res = {i: f.result() for i, f in enumerate(futs)}
     nprob, stat = 0, {}
     for i, (nm, s, text) in enumerate(items):
         R = res[i]
@@ -776,9 +872,10 @@ def setup(ctx):
     ctx.assumptions += [
         "identifiers reach the generators lower-cased by the EXPRESS scanner (checked: raw dictionary names are compared)",
         "symbol-table iteration order is a parameter of the model (theorems quantify over it; dumps are compared sorted)",
-        "single-schema inputs; aggregate bounds are integer literals or `?`; no WHERE/UNIQUE rules, no USE/REFERENCE",
+        "single-schema inputs; aggregate bounds are integer literals or `?`; no USE/REFERENCE; the text of a rule's expression is compared "
+        "up to layout (white space, parentheses): the expression printer is C07's subject",
     ]
-    ok = ctx.lean("StepModel.Props.C02", exes=["m_c02"], extractors=["dictgen", "accessors"])
+    ok = ctx.lean("StepModel.Props.C02", exes=["m_c02"], extractors=["dictgen", "accessors", "rulegen"])
     b = ctx.build("plain")
     return ok, b, ctx.model_exe("m_c02")
 
@@ -793,18 +890,22 @@ def run(ctx):
         model_exe = stub
     quick = ctx.tier == "quick"
     items = [(nm, s, None) for nm, s in corpus_schemas()]
-    run_batch(ctx, b, model_exe, items, "corpus")
+    pool = cf.ThreadPoolExecutor(max_workers=min(16, (os.cpu_count() or 8)))
+    p_corpus = submit_batch(ctx, pool, b, model_exe, items, "corpus")
     # hash-order dependent emission (SCOPEPrint walks the symbol table): the same small shape under every assignment of a fixed
     # set of names to its roles, so that every relative iteration order of the declarations occurs
-    run_batch(ctx, b, model_exe, [(nm, s, None) for nm, s in permuted_shapes()], "name-permutations")
-    run_batch(ctx, b, model_exe, [(nm, s, None) for nm, s in size_shapes(not quick)], "size-boundaries")
+    p_perm = submit_batch(ctx, pool, b, model_exe, [(nm, s, None) for nm, s in permuted_shapes()], "name-permutations")
+    p_size = submit_batch(ctx, pool, b, model_exe, [(nm, s, None) for nm, s in size_shapes(not quick)], "size-boundaries")
     n_gen = 24 if quick else 700
     g = G.Gen(ctx.rng, n_types=(4, 11))
     core = []
     for i in range(n_gen):
         s = g.schema()
         core.append((f"gen{i}", s, scramble_case(s.text(), ctx.rng) if i % 4 == 3 else None))
-    run_batch(ctx, b, model_exe, core, "generated")
+    p_gen = submit_batch(ctx, pool, b, model_exe, core, "generated")
+    for pnd in (p_corpus, p_perm, p_size, p_gen):      # judged in this order (corpus first), built concurrently
+        collect_batch(ctx, b, model_exe, pnd)
+    pool.shutdown()
     if core:
         ctx.sample({"schema": core[0][1].text()[:1200]})
         ctx.sample({"ast": core[0][1].ast()[:800]})
@@ -823,11 +924,7 @@ def replay(ctx, path):
     d = json.load(open(path))
     r = d.get("replay", d)
     proof_ok, b, model_exe = setup(ctx)
-    j = r["schema_json"]
-    s = G.Schema(j["name"])
-    s.types = [dict(name=t["name"], body=tup(t["body"])) for t in j["types"]]
-    s.entities = [dict(name=e["name"], abstract=e["abstract"], supers=e["supers"],
-                       attrs=[{k: (tup(v) if k == "type" else v) for k, v in a.items()} for a in e["attrs"]]) for e in j["entities"]]
+    s = schema_from_json(r["schema_json"])
     R = run_one(b, model_exe, s, os.path.join(ctx.work, "replay"), r.get("schema_exp"),
                 script_ops=(r.get("registry_script") or "").split() or None)
     ctx.count(1, key=R.text)
